@@ -15,6 +15,7 @@ RULE = ("generated (d=1..4, 1<=lmin<=lmax, lmax-lmin<=4, box kind in unit/shifte
         "[hash-valued arbitrary function, nodal hats of component grids whose level lies in the index set (all for small "
         "configurations, <=32 sampled otherwise), 4 random combinations]. plus object-reuse histories: the same StandardCombi object is first run on other levels and read through its read-only helpers (print_subspaces / print_resulting_combi_scheme / print_resulting_sparsegrid / plot / get_total_num_points / __call__ / get_points_and_weights / check_combi_scheme) before the observed perform_operation. distinct = (d,lmin,lmax,boundary,box digest); "
         "non-trivial = lmax>lmin and d>=2")
+RULE += (" A further generator builds a MixedGrid of 1-D trapezoidal grids with per-dimension boundary flags (point, count, coefficient and integration clauses only).")
 REQUIRED = ["bitwise_nested", "scheme_coefficients", "points_on_dyadic_grid", "union_is_sparse_grid", "coefficient_sum_per_point",
             "reported_count_matches_points", "nodal_reproduction_call", "nodal_reproduction_grid", "hat_integral_exact",
             "hat_interpolation_exact"]
@@ -26,7 +27,9 @@ ASSUMPTIONS = ["d<=4, lmax<=6 (d<=2), <=5 (d=3), <=4 (d=4)", "hierarchical level
 def cases(tier, seed):
     n = 260 if tier == "quick" else 4000
     m = 120 if tier == "quick" else 1500
-    return [{"gen": "config", "seed": case_seed(seed, "C02", "config", i), "tier": tier} for i in range(n)] + \
+    k = 80 if tier == "quick" else 1000
+    return [{"gen": "mixed", "seed": case_seed(seed, "C02", "mixed", i), "tier": tier} for i in range(k)] + \
+           [{"gen": "config", "seed": case_seed(seed, "C02", "config", i), "tier": tier} for i in range(n)] + \
            [{"gen": "reuse", "seed": case_seed(seed, "C02", "reuse", i), "tier": tier} for i in range(m)]
 
 
@@ -84,13 +87,21 @@ def run_case(case, res):
     rng = random.Random(case["seed"])
     cfg = gen(rng)
     d, lmin, lmax, boundary = cfg["d"], cfg["lmin"], cfg["lmax"], cfg["boundary"]
+    mixed = case["gen"] == "mixed" and d >= 2
+    if mixed:
+        # MixedGrid of 1-D trapezoidal grids with PER-DIMENSION boundary flags (at least one on, one off)
+        bfl = [rng.random() < 0.5 for _ in range(d)]
+        bfl[0], bfl[1] = (True, False) if rng.random() < 0.5 else (False, True)
+        cfg["boundary_per_dim"] = bfl
+    else:
+        bfl = [boundary] * d
     a, b = np.array(cfg["a"]), np.array(cfg["b"])
     width = b - a
     I = rm.standard_index_set(d, lmin, lmax)
     # hat components
     all_hats = []
     for l in sorted(I):
-        rngs = [range(0 if boundary else 1, 2 ** lk + (1 if boundary else 0)) for lk in l]
+        rngs = [range(0 if bfl[k] else 1, 2 ** lk + (1 if bfl[k] else 0)) for k, lk in enumerate(l)]
         n = 1
         for r_ in rngs:
             n *= len(r_)
@@ -114,7 +125,12 @@ def run_case(case, res):
         comps.append((lambda ww, bs: (lambda p: sum(wi * g(p) for wi, g in zip(ww, bs))))(w, base))
         exact_int.append(sum(wi * e for wi, e in zip(w, exact_int[1:1 + len(hats)])))
     f = hooks.VFunction(comps)
-    grid = TrapezoidalGrid(a=a, b=b, boundary=boundary)
+    if mixed:
+        from sparseSpACE.Grid import MixedGrid, TrapezoidalGrid1D
+        grid = MixedGrid(a=a, b=b, grids=[TrapezoidalGrid1D(a=a[k], b=b[k], boundary=bfl[k]) for k in range(d)])
+        res.count("mixed_boundary_flags")
+    else:
+        grid = TrapezoidalGrid(a=a, b=b, boundary=boundary)
     op = Integration(f=f, grid=grid, dim=d, print_level=100, log_level=100)
     combi = StandardCombi(a, b, operation=op, print_output=False, log_level=100, print_level=100)
     if case["gen"] == "reuse":
@@ -134,8 +150,8 @@ def run_case(case, res):
         pts = combi.get_points_component_grid(list(l))
         npts = combi.get_num_points_component_grid(list(l), False)
         exp_n = 1
-        for lk in l:
-            exp_n *= 2 ** lk + (1 if boundary else -1)
+        for _kk, lk in enumerate(l):
+            exp_n *= 2 ** lk + (1 if bfl[_kk] else -1)
         res.check("reported_count_matches_points", int(npts) == len(pts) == exp_n, "standard_point_count",
                   "grid %s reports %s points, returns %d, expected %d" % (l, npts, len(pts), exp_n))
         idxs = set()
@@ -148,13 +164,13 @@ def run_case(case, res):
             ii = tuple(int(x) for x in r)
             idxs.add(ii)
             floats.setdefault(ii, set()).add(tuple(float(x) for x in p))
-        exp_idx = set(itertools.product(*[rm.dyadic_component_indices(lk, finest, boundary) for lk in l]))
+        exp_idx = set(itertools.product(*[rm.dyadic_component_indices(lk, finest, bfl[_kk]) for _kk, lk in enumerate(l)]))
         res.check("points_on_dyadic_grid", okgrid and idxs == exp_idx, "standard_component_points_wrong",
                   "points of component grid %s are not the dyadic tensor grid of that level" % (l,),
                   {"extra": sorted(idxs - exp_idx)[:5], "missing": sorted(exp_idx - idxs)[:5]})
         for i in idxs:
             total[i] = total.get(i, 0) + coef
-    sg = rm.sparse_grid_indices(I, finest, boundary)
+    sg = rm.sparse_grid_indices(I, finest, bfl)
     res.check("union_is_sparse_grid", set(total) == sg, "standard_union_not_sparse_grid",
               "union of the component grid points differs from the sparse grid (%d vs %d points)" % (len(total), len(sg)),
               {"extra": sorted(set(total) - sg)[:5], "missing": sorted(sg - set(total))[:5]})
@@ -176,7 +192,7 @@ def run_case(case, res):
     nsch = sum(abs(c_) for _, c_ in sm)
     cond = max(max(abs(a[k]), abs(b[k])) / (width[k] / 2 ** finest) for k in range(d))
     itol = (1e-12 + 4e-16 * cond)
-    if P:
+    if P and not mixed:   # interpolation on mixed-boundary grids is outside the sparse-grid interpolant (zero / non-zero boundary mix)
         vals = np.asarray(combi(P))
         exp = np.array([f.eval(p) for p in P])
         scale = max(1.0, float(np.max(np.abs(exp)))) * nsch
@@ -185,8 +201,8 @@ def run_case(case, res):
     # tensor grid interpolation: coordinates of a coarse tensor grid whose entries are all sparse grid points
     # (levels (lmin,...,lmin) full grid is contained in every sparse grid) plus comparison to combi(points) elsewhere
     tl = [lmin] * d
-    tcoords = [list(axes[k][rm.dyadic_component_indices(lmin, finest, boundary)]) for k in range(d)]
-    if all(len(t) > 0 for t in tcoords):
+    tcoords = [list(axes[k][rm.dyadic_component_indices(lmin, finest, bfl[k])]) for k in range(d)]
+    if all(len(t) > 0 for t in tcoords) and not mixed:
         tv = np.asarray(combi.interpolate_grid(tcoords))
         tp = list(itertools.product(*tcoords))
         exp = np.array([f.eval(tuple(float(x) for x in p)) for p in tp])
@@ -203,10 +219,11 @@ def run_case(case, res):
               {"cfg": cfg, "n_hats": len(hats)})
     R = [tuple(float(a[k] + rng.random() * width[k]) for k in range(d)) for _ in range(64)]
     R += [tuple(float(axes[k][rng.randrange(len(axes[k]))]) for k in range(d)) for _ in range(16)]
-    vals = np.asarray(combi(R))
-    exp = np.array([f.eval(p) for p in R])
-    res.close("hat_interpolation_exact", vals[:, 1:], exp[:, 1:], itol * nsch * wsum[None, :], "standard_hat_interpolation",
-              "combi(x) is not exact for functions of the sparse grid space at random points", {"cfg": cfg})
+    if not mixed:
+        vals = np.asarray(combi(R))
+        exp = np.array([f.eval(p) for p in R])
+        res.close("hat_interpolation_exact", vals[:, 1:], exp[:, 1:], itol * nsch * wsum[None, :], "standard_hat_interpolation",
+                  "combi(x) is not exact for functions of the sparse grid space at random points", {"cfg": cfg})
     # get_points_and_weights: union equals the sparse grid as well
     pw, ww = combi.get_points_and_weights()
     idxs = set()
@@ -215,8 +232,8 @@ def run_case(case, res):
         idxs.add(tuple(int(x) for x in t))
     res.check("points_and_weights_union", idxs == sg and len(pw) == len(ww), "standard_points_weights_union",
               "points of get_points_and_weights() are not the sparse grid")
-    res.hash = digest([d, lmin, lmax, boundary, cfg["a"], cfg["b"]])
+    res.hash = digest([d, lmin, lmax, bfl, cfg["a"], cfg["b"]])
     res.nontrivial = lmax > lmin and d >= 2
-    res.states.add(digest([d, lmin, lmax, boundary]))
+    res.states.add(digest([d, lmin, lmax, bfl]))
     res.sample = {"config": cfg, "n_component_grids": len(sm), "sparse_grid_points": len(sg), "hat_components": len(hats),
                   "scheme": sm[:8]}
